@@ -10,6 +10,7 @@ from stabilize.stages.builder import get_default_factory
 if TYPE_CHECKING:
     from stabilize.models.stage import StageExecution
     from stabilize.persistence.store import WorkflowStore
+    from stabilize.queue import Queue
 
 
 class CompleteStagePlannerMixin:
@@ -17,6 +18,7 @@ class CompleteStagePlannerMixin:
 
     if TYPE_CHECKING:
         repository: WorkflowStore
+        queue: Queue
 
     def _plan_after_stages(self, stage: StageExecution) -> None:
         """Plan after stages using the stage definition builder."""
@@ -24,10 +26,14 @@ class CompleteStagePlannerMixin:
         graph = StageGraphBuilder.after_stages(stage)
         builder.after_stages(stage, graph)
 
-        for s in graph.build():
-            s.execution = stage.execution
-            stage.execution.stages.append(s)  # Add to in-memory list for first_after_stages()
-            self.repository.add_stage(s)
+        # One commit for the whole set: stored one by one, a crash between two
+        # rows left the later after-stages missing for good (the redelivered
+        # CompleteStage finds "after-stages exist" and does not plan again).
+        with self.repository.transaction(self.queue) as txn:
+            for s in graph.build():
+                s.execution = stage.execution
+                stage.execution.stages.append(s)  # Add to in-memory list for first_after_stages()
+                txn.store_stage(s)
 
     def _plan_on_failure_stages(self, stage: StageExecution) -> bool:
         """
@@ -44,9 +50,10 @@ class CompleteStagePlannerMixin:
         if not new_stages:
             return False
 
-        for s in new_stages:
-            s.execution = stage.execution
-            stage.execution.stages.append(s)  # Add to in-memory list for first_after_stages()
-            self.repository.add_stage(s)
+        with self.repository.transaction(self.queue) as txn:
+            for s in new_stages:
+                s.execution = stage.execution
+                stage.execution.stages.append(s)  # Add to in-memory list for first_after_stages()
+                txn.store_stage(s)
 
         return True
